@@ -77,7 +77,7 @@ def rule_ki(repo, tier):
     res = RuleResult('C12.KI', 'every bound of an integer-dtype torch.arange / builtin range is of integer kind', floor=2)
     mods = [OPS] if tier == 'quick' else sorted(repo.modules)
     for m in mods:
-        for f in repo.module(m).functions.values():
+        for f in repo.functions_view(m):
             ki_check(f, res, 'C12.KI')
     # the two aranges of cumops_ are the anchor
     f = repo.func(OPS, 'cumops_')
